@@ -185,3 +185,18 @@ pub fn t1_reset() {
         T1_SLOT.2.clear();
     }
 }
+
+// ---------------------------------------------------------------- T2 (Layer G): rule bookkeeping of the tracker
+/// `Tracker::record_during_with` reduced to running the closure: drops the (rule, position, has_children)
+/// stack of the tracker (a real `Vec`), which only feeds error reports (C10 exercises it for real).
+pub fn t_record_during_with<'i, R: RuleType, Ret, I: Input<'i>>(
+    t: &mut Tracker<'i, R>,
+    _pos: I,
+    f: impl FnOnce(&mut Tracker<'i, R>) -> Option<Ret>,
+    _rule: R,
+) -> Option<Ret>
+where
+    'i: 'i,
+{
+    f(t)
+}
